@@ -403,6 +403,22 @@ def register_globals_wrapper(R):
                    note='name resolution of user code; the builtins table is modelled as a dict object'))
 
 
+def register_partial_child(R):
+    """PartialChild.__getattr__ (C10): attribute access on the partially evaluated config is item access - whatever the state of the
+    partial result, `cfg.name` is `cfg['name']`, which evaluates the node on demand.  A guard that refuses names not evaluated yet
+    would make the value of user code depend on the order in which keys were written."""
+    def gate_item(sc, kw):
+        return z3.And(kw['args'][0].t == sc['self'], kw['args'][1].t == sc['name'])
+    R.add(Contract(E + 'PartialChild.__getattr__', [P.node('self', 'PartialChild', exact=True), P.val('name', 'str')],
+                   modifies=lambda c: [(f, 'all') for f in ('$mlen', '$mkeyat', '$mpos', '$mval', '$llen', '$litem')],
+                   ensures=[('C10.attribute-access-is-item-access-whatever-has-been-evaluated-so-far',
+                             lambda c: z3.BoolVal(any(e[0] == 'read-config-entry' for e in getattr(c, 'events', []))))],
+                   raises=[Raises('EvalError'), Raises('UnsafeError'), Raises('KeyError')], result=P.val('result', 'any'), props=('C10',),
+                   opts={'use': {E + 'PartialChild.__getitem__': 'abstract'}, 'gates': {'read-config-entry': gate_item}, 'gates_on_raise': True,
+                         'no_search': True, 'no_frame': True, 'skip_kinds': ('safety',)},
+                   note='no AttributeError for names that are merely not evaluated yet'))
+
+
 def _mapping_node_ok(c, h, d):
     from .c_containers import inv_dict, chref
     mm = S.children(h, d)
@@ -434,3 +450,4 @@ def _reg_all(R):
     register_context_init(R)
     register_evalnode(R)
     register_globals_wrapper(R)
+    register_partial_child(R)
